@@ -231,8 +231,10 @@ class Src:
             if t.text == "impl":
                 o, c = body_after(toks, i)
                 hdr = texts(toks, i + 1, o)
-                if "GcManaged" in hdr and "for" in hdr and hdr.index("for") > hdr.index("GcManaged"):
-                    ty = hdr[hdr.index("for") + 1:]
+                # the trait right before the top-level `for` must be GcManaged
+                fi = [x for x in range(1, len(hdr)) if hdr[x] == "for" and hdr[x - 1] == "GcManaged"]
+                if fi:
+                    ty = hdr[fi[0] + 1:]
                     if "where" in ty:
                         ty = ty[:ty.index("where")]
                     head = "&[]" if ty[:2] == ["&", "["] else generic_args(ty)[0]
@@ -270,7 +272,7 @@ class Src:
                     car.add(name)
                     changed = True
             for name, ty in self.aliases.items():
-                if name not in car and self.mentions(ty, car):
+                if name not in car and ty[:1] != ["fn"] and self.mentions(ty, car):
                     car.add(name)
                     changed = True
         return car
